@@ -599,6 +599,7 @@ callback_readdata(void * cookie, int status)
 	struct http_cookie * H = cookie;
 	uint8_t * buf;
 	size_t buflen;
+	size_t datalen;
 	size_t waitlen;
 
 	/*
@@ -615,8 +616,18 @@ callback_readdata(void * cookie, int status)
 	if (buflen > H->readlen)
 		buflen = H->readlen;
 
-	/* Add this to our internal buffer. */
-	if (addbody(H, buf, buflen))
+	/*
+	 * Add this to our internal buffer -- except for the EOL which follows
+	 * chunk data (the last 2 bytes of the current read).
+	 */
+	datalen = buflen;
+	if (H->chunked) {
+		if (H->readlen <= 2)
+			datalen = 0;
+		else if (datalen > H->readlen - 2)
+			datalen = H->readlen - 2;
+	}
+	if (addbody(H, buf, datalen))
 		return (die(H));
 
 	/* Consume the data. */
@@ -629,9 +640,6 @@ callback_readdata(void * cookie, int status)
 	if (H->readlen == 0) {
 		/* Was this just one chunk from a chunked encoding? */
 		if (H->chunked) {
-			/* Strip the trailing EOL. */
-			H->res.bodylen -= 2;
-
 			/* Get the next chunk. */
 			return (callback_chunkedheader(H, 0));
 		}
